@@ -1,3 +1,3 @@
-import Babylon.Core.Proto
-/-! Line-protocol driver for property C01 (stub). -/
-def main : IO Unit := Babylon.Core.runLines (fun (s : Unit) _ => (s, "bad-op")) ()
+import Babylon.BQ.Replay
+/-! Lock-step replay driver for property C01 (ConcurrentBoundedQueue); shared with C02. -/
+def main : IO Unit := Babylon.BQ.replayMain
